@@ -48,6 +48,12 @@ func (d *DiskKV) decodeEntry(entry *proto.LogEntry, mut *proto.Mutation) (err er
 	}
 	switch entry.GetVersion() {
 	case proto.LogVersion_V1:
+		// the checksum of empty data is 0, which is also the default of an absent
+		// checksum field: a damaged entry must not decode into an empty mutation
+		if len(entry.GetData()) == 0 {
+			err = fmt.Errorf("log entry has no data, possibly corrupted log")
+			return
+		}
 		// uncompressed
 		err = mut.UnmarshalVT(entry.Data)
 	default:
